@@ -1,0 +1,39 @@
+//go:build verif
+
+// Package verifdecision re-exports the internal bitswap decision engine for
+// the out-of-module verification harness. Compiled only with -tags verif.
+package verifdecision
+
+import (
+	"github.com/ipfs/go-cid"
+
+	"github.com/ipfs/boxo/bitswap/server/internal/decision"
+)
+
+type (
+	Engine                 = decision.Engine
+	Envelope               = decision.Envelope
+	Option                 = decision.Option
+	TaskInfo               = decision.TaskInfo
+	TaskComparator         = decision.TaskComparator
+	PeerBlockRequestFilter = decision.PeerBlockRequestFilter
+	PeerTagger             = decision.PeerTagger
+	VerifEntry             = decision.VerifEntry
+)
+
+var (
+	NewEngine                           = decision.NewEngine
+	WithTaskComparator                  = decision.WithTaskComparator
+	WithPeerBlockRequestFilter          = decision.WithPeerBlockRequestFilter
+	WithTargetMessageSize               = decision.WithTargetMessageSize
+	WithBlockstoreWorkerCount           = decision.WithBlockstoreWorkerCount
+	WithTaskWorkerCount                 = decision.WithTaskWorkerCount
+	WithMaxOutstandingBytesPerPeer      = decision.WithMaxOutstandingBytesPerPeer
+	WithMaxQueuedWantlistEntriesPerPeer = decision.WithMaxQueuedWantlistEntriesPerPeer
+	WithMaxCidSize                      = decision.WithMaxCidSize
+	WithSetSendDontHave                 = decision.WithSetSendDontHave
+	WithWantHaveReplaceSize             = decision.WithWantHaveReplaceSize
+)
+
+// SetTieKey installs the tie order used inside handleOverflow (see decision.VerifTieKey).
+func SetTieKey(f func(c cid.Cid) int) { decision.VerifTieKey = f }
